@@ -6,6 +6,21 @@ ALL = ["C%02d" % i for i in range(1, 21)]
 
 # id -> (category, technique, level text, level note, design ref)
 CHECKS = {
+ "C01": ("exploration", "runtime monitor: real Send+Receive over an instrumented in-memory stream; independent lstat/readlink/xattr/sha256 snapshot of dest compared with the expected tree (source view, identity-retention and merge-overlay models) under the statement's mask",
+         "Thousands of generated (source tree, prior destination, configuration) cases incl. unprivileged receiver, synthetic source, merge mode, dirty destinations; a violation is any demanded field that differs after both calls returned nil. Held on the executions observed.",
+         "Trusts the independent snapshot walker (x/sys/unix) and the expectation models in c01.go; Linux, root, tmpfs/ext4 with mknod+xattrs; unprivileged receiver emulated by switching euid/egid.", "DESIGN.md §5 C01"),
+ "C02": ("exploration", "runtime monitor over edit histories: REQ ids from the packet log mapped through the STAT sequence and compared with the identity model; inode/bytes of untouched entries compared before/after",
+         "Generated edit histories (incl. single-field edits, unchanged re-syncs, DiffNone rounds); requests must equal the set the identity model computes, untouched entries keep their inode and bytes, an unchanged re-sync sends no request and no notification. Held on the executions observed.",
+         "Trusts the identity model (identityEqual/changedSet in the harness) incl. the encoded hard-link timing exception; root.", "DESIGN.md §5 C02"),
+ "C05": ("exploration", "runtime monitor: every NotifyHashed call recorded and checked against a notification model (apply events to old snapshot == new snapshot; exactly-once per changed path; no unchanged path; deletes == top-most removed paths; digests recomputed from the stat on the wire and the bytes in dest)",
+         "Generated edit histories incl. pure directory metadata edits, adjacent deleted directories, subtree deletions, type swaps, out-of-order content completion. Held on the executions observed.",
+         "Trusts the notification model in c05.go and the harness hasher; add vs modify not demanded; hard-link timing exception as in C02.", "DESIGN.md §5 C05"),
+ "C09": ("exploration", "runtime differential monitor: callback sequences of Walk/WalkDir/FS.Walk(sub-target)/SubDirFS vs an independent recursive lstat listing sorted component-wise",
+         "Generated trees over an adversarial name pool (bytes below and above '/', 255-byte names), all entry types, hard-link groups, depth<=6; every reported stat is compared field by field. Held on the executions observed.",
+         "Trusts the snapshot walker and tree.CmpPath; root; link names demanded for regular files only.", "DESIGN.md §5 C09"),
+ "C10": ("exploration", "runtime differential monitor: filtered fsutil.WalkDir callback sequence vs naive per-entry reference filter (fresh matcher on the full listing + ancestors); map-function clauses checked on the recorded map/report event sequence",
+         "Generated (tree, include list, exclude list, map function) cases over sibling-confusable names and a pattern grammar; known finding K1 (moby/patternmatcher) is triaged by comparing with the incremental-unpruned reference. Held on the executions observed.",
+         "Single-pattern matching is moby/patternmatcher's on both sides; where the statement is silent (map result on lazily emitted parents) every outcome is accepted.", "DESIGN.md §5 C10"),
  "C12": ("exploration", "runtime differential monitor: real Validator vs executable specification on exhaustively enumerated bounded sequences + random long ones; order axioms on all pairs/triples",
          "Every sequence up to the length bound over a 25-path x {dir,file,delete} alphabet is executed against a fresh real Validator and compared (decision and rejection index) with a 15-line specification; ComparePath is compared with component-wise comparison and the strict-total-order axioms on all pairs/triples of an adversarial path alphabet. Held on the executions observed; bounded, not a proof.",
          "Trusts the specification in harness/cmd/vrun/c12.go and Go's path.Clean; unix separators only.", "DESIGN.md §5 C12"),
